@@ -60,6 +60,8 @@ M = [
     ("C16-d", "C16", "cmd/main.go", "\t\t\t\tLifecycle:                 n.AWS.Lifecycle,\n", "", "aws.lifecycle not handed to the cloud provider"),
     ("C16-e", "C16", "cmd/main.go", "\t\t\tGroupID: n.CloudProviderGroupName,", "\t\t\tGroupID: n.Name,", "cloud group id taken from the node group's name"),
     ("C16-f", "C16", "cmd/main.go", "FleetInstanceReadyTimeout: n.AWS.FleetInstanceReadyTimeoutDuration(),", "FleetInstanceReadyTimeout: nodegroups[0].AWS.FleetInstanceReadyTimeoutDuration(),", "every group gets the first group's ready timeout"),
+    ("C02-e", "C02", "pkg/controller/controller.go", "\t\t\tscaleUpLock: scaleLock{\n\t\t\t\tminimumLockDuration: nodeGroupOpts.ScaleUpCoolDownPeriodDuration(),", "\t\t\tscaleUpLock: scaleLock{\n\t\t\t\tminimumLockDuration: nodeGroupOpts.SoftDeleteGracePeriodDuration(),", "NewController initialises the lock with the soft grace period instead of the cool-down"),
+    ("C12-c", "C12", "pkg/controller/controller.go", "\t\t\tNodeGroupLister: client.Listers[nodeGroupOpts.Name],", "\t\t\tNodeGroupLister: client.Listers[opts.NodeGroups[0].Name],", "NewController gives every group the first group's listers"),
     ("C17-a", "C17", "pkg/cloudprovider/aws/aws.go", "return n.setASGDesiredSize(n.TargetSize() + delta)\n\n}", "return n.setASGDesiredSize(delta)\n\n}", "SetDesiredCapacity(delta)"),
     ("C17-b", "C17", "pkg/cloudprovider/aws/aws.go", "\tbatchSize = 20\n", "\tbatchSize = 21\n", "attach batches of 21"),
     ("C18-a", "C18", "pkg/cloudprovider/aws/aws.go", "\t\t\tterminate(n, append(instances, batch...))", "\t\t\tterminate(n, instances)", "failed batch forgotten"),
